@@ -44,15 +44,26 @@ class Run:
         self.cases, self.meta = [], []
         self.dist = {}
         self.K = J.keys()
-        self.coq_budget = ctx.scale(4500, 60000)
+        self.coq_budget = ctx.scale(1300, 40000)
+        self.forced = []
 
     def note(self, kind):
         self.dist[kind] = self.dist.get(kind, 0) + 1
 
     def add(self, term, meta, force=False):
-        if force or len(self.cases) < self.coq_budget:
-            self.cases.append(term)
-            self.meta.append(meta)
+        (self.forced if force else self.cases).append((term, meta))
+
+    def select(self):
+        """stratified sample of the recorded cases (per fault kind), within the Coq budget"""
+        groups = {}
+        for term, meta in self.cases:
+            groups.setdefault((meta.get("fn"), str(meta.get("what", "")).split(":")[0]), []).append((term, meta))
+        per = max(3, self.coq_budget // max(1, len(groups)))
+        out = list(self.forced)
+        for k in sorted(groups):
+            g = groups[k]
+            out += g if len(g) <= per else self.ctx.rng.sample(g, per)
+        return [t for t, m in out], [m for t, m in out]
 
     # ---- one verification of a compact token on implementation + model case
     def des_compact(self, tok, key, algs, must_reject, orig, what, rfc7797=False, payload_arg=None, coq=True):
@@ -163,7 +174,7 @@ def run(ctx):
         def keyforms(name):
             k = K[name]
             pub = J.pubkey_of(k)
-            others = [K[n] for n in ("oct16", "p384", "ed448") if n != name]
+            others = [K[n] for n in ("oct16", "p384", "ed448", "rsa") if K[n].key_type != k.key_type]
             return [("key", k, pub), ("set", KeySet([others[0], k, others[1]]), KeySet([J.pubkey_of(others[0]), pub])),
                     ("callable", (lambda obj, _k=k: _k), (lambda obj, _p=pub: _p))]
 
@@ -502,7 +513,7 @@ def run(ctx):
                                   {"fn": "ec.verify", "alg": alg, "len": n})
                 R.add("JAlgVerify %s %s %s %s %s %s" % (J.c_table(rows), c_str(alg), J.c_key(k), c_hex(b"msg"), c_hex(sig),
                                                       J.c_res(r, c_bool)), {"fn": "ec.verify", "alg": alg, "len": n}, force=True)
-        cases, meta, dist = R.cases, R.meta, R.dist
+        (cases, meta), dist = R.select(), R.dist
     ctx.notes.append("implementation run: %.1fs, %d cases, %d chars" % (_t.time() - _t0, len(cases), sum(map(len, cases)))); _t0 = _t.time()
 
     ctx.coverage["rule"] = ("accepted => not derived by a fault and the returned (protected header, payload) are those of the issued token; "
